@@ -714,6 +714,12 @@ pub enum Op {
     /// versions; r takes a full snapshot and commits; the third replica edits on top of what it knows and
     /// commits; r melds + refreshes from it
     SnapshotRace { r: u8, from: u8, e1: Vec<EditStep>, e2: Vec<EditStep>, e3: Vec<EditStep> },
+    /// export the staged changes, then replay the export in an unusual place: mode 0 = after further edits
+    /// (nothing discarded), 1 = after discarding and making other edits, 2 = after committing them
+    ReplayOnto { r: u8, mode: u8, edit: Vec<EditStep> },
+    /// a block file of `from` reaches r's storage half-written (complete = false), or every half-written
+    /// item of r is completed (complete = true)
+    TornBlock { r: u8, from: u8, pick: u16, complete: bool },
 }
 
 pub const FOREIGN_NAMES: [&str; 7] = ["notes.txt", "README", "blob.bin", "x.delta.bak", "y.pack.tmp", ".hidden", "\u{fc}.dat"];
@@ -749,6 +755,8 @@ impl Op {
             Op::Foreign { .. } => "foreign",
             Op::FaultyMeld { .. } => "faultymeld",
             Op::SnapshotRace { .. } => "snapshotrace",
+            Op::ReplayOnto { .. } => "replayonto",
+            Op::TornBlock { .. } => "tornblock",
         }
     }
 }
@@ -776,6 +784,7 @@ pub struct Mix {
     pub foreign: u32,
     pub faultymeld: u32,
     pub snaprace: u32,
+    pub tornblock: u32,
     pub rich: bool,
     pub rich_info: bool,
 }
@@ -803,6 +812,7 @@ impl Default for Mix {
             foreign: 0,
             faultymeld: 0,
             snaprace: 1,
+            tornblock: 0,
             rich: false,
             rich_info: false,
         }
@@ -855,6 +865,11 @@ pub fn op(m: &Mix) -> BoxedStrategy<Op> {
     add(
         m.snaprace,
         (r, any::<u8>(), edit(m.rich), edit(m.rich), edit(m.rich)).prop_map(|(r, from, e1, e2, e3)| Op::SnapshotRace { r, from, e1, e2, e3 }).boxed(),
+    );
+    add(m.stagert, (r, 0u8..3, edit(m.rich)).prop_map(|(r, mode, edit)| Op::ReplayOnto { r, mode, edit }).boxed());
+    add(
+        m.tornblock,
+        (r, any::<u8>(), any::<u16>(), prop::bool::weighted(0.3)).prop_map(|(r, from, pick, complete)| Op::TornBlock { r, from, pick, complete }).boxed(),
     );
     add(m.foreign, (r, any::<u8>()).prop_map(|(r, k)| Op::Foreign { r, k }).boxed());
     add(m.faultycommit, (r, 0u8..2, jinfo(false)).prop_map(|(r, k, info)| Op::FaultyCommit { r, k, info }).boxed());
